@@ -466,6 +466,13 @@ def get_model_parser(top_rule, comments_model, **kwargs):
                     encoding=encoding,
                 )
 
+                if is_main_model:
+                    # All models of this load are constructed. Normally
+                    # the attr methods are already restored at this point
+                    # (see _end_model_construction), but not if the model
+                    # is of some immutable type (e.g. str).
+                    self._restore_user_attr_methods()
+
             except:  # noqa
                 # Restore of user classes replaced attr methods
                 self._restore_user_attr_methods()
